@@ -483,7 +483,10 @@ class Scheduler:
                     random_shuffle=random_shuffle,
                     repeat_num=0,
                 )
-                current_length = max(gate_cycle_indices)
+                if return_cycles_list:
+                    current_length = len(gate_cycle_indices) - 1
+                else:
+                    current_length = max(gate_cycle_indices)
                 if current_length < max_length:
                     result = gate_cycle_indices
                     max_length = current_length
